@@ -141,6 +141,7 @@ prop('C14',
      kani=['vk_parsed_set_year', 'vk_parsed_set_year_div_100', 'vk_parsed_set_year_mod_100', 'vk_parsed_set_isoyear', 'vk_parsed_set_isoyear_div_100', 'vk_parsed_set_isoyear_mod_100', 'vk_parsed_set_quarter', 'vk_parsed_set_month', 'vk_parsed_set_week_from_sun', 'vk_parsed_set_week_from_mon', 'vk_parsed_set_isoweek', 'vk_parsed_set_ordinal', 'vk_parsed_set_day', 'vk_parsed_set_minute', 'vk_parsed_set_second', 'vk_parsed_set_nanosecond', 'vk_parsed_set_timestamp', 'vk_parsed_set_offset', 'vk_parsed_set_clock', 'vk_parsed_date_agrees', 'vk_parsed_complete_ymd', 'vk_parsed_complete_yo',
            'vk_parsed_complete_wsun', 'vk_parsed_complete_wmon', 'vk_parsed_complete_iso', 'vk_parsed_year_groups', 'vk_parsed_insufficient', 'vk_parsed_time', 'vk_parsed_offset'],
      kani_timeout=2400,
+     twin=['parsed'],
      uncovered=['Parsed::to_naive_datetime_with_offset (timestamp cross-check and reconstruction: day-count arithmetic beyond CBMC; not yet under a Verus contract)',
                 'Parsed::to_datetime / to_datetime_with_timezone (go through the above and the TimeZone lookup)'],
      text='Kani proves, with all 14 date fields fully symbolic (Option<any i32/u32>), that a successful Parsed::to_naive_date agrees with every supplied field; completeness for each '
